@@ -982,15 +982,17 @@ func c16SuiteSlots(c *Ctx) {
 				}
 				ord++
 				slots := map[string]ast.Expr{}
+				// an unkeyed element fills the field at its position in the struct type as it is
+				// declared today (seeded C16-4: reordering the two uint16 fields silently swaps
+				// every positional literal)
+				st, _ := info.TypeOf(cl).Underlying().(*types.Struct)
 				for i, el := range cl.Elts {
 					if kv, ok := el.(*ast.KeyValueExpr); ok {
 						if id, ok := kv.Key.(*ast.Ident); ok {
 							slots[id.Name] = kv.Value
 						}
-					} else if i == 0 {
-						slots["KdfId"] = el
-					} else if i == 1 {
-						slots["AeadId"] = el
+					} else if st != nil && i < st.NumFields() {
+						slots[st.Field(i).Name()] = el
 					}
 				}
 				cons := fmt.Sprintf("suite-literal:%s#%d", owner, ord)
